@@ -23,4 +23,9 @@ func init() {
 		Decides:    "write-order necessary conditions of crash consistency on every path: the table object is written after its derived indices (C13-a), after the worker join (C13-b); refs are written with a sum that is data-dependent on SaveCommit (C13-c); fetch saves refs after objects (C09-a); prune deletes commits last (C12-e); no commit before its parents (C07-b); SQL multi-statement writes run in one transaction (C13-g).",
 		NotDecided: "repeatability of the operation after a crash; effects of a crash inside a multi-branch pull; atomicity of the underlying stores (trusted).",
 	}
+	props["C10"] = &propSpec{
+		Rules:      []string{"C10-a", "C10-b", "C10-c", "C10-e"},
+		Decides:    "every ref-update site in fetch and push is reachable only through a fast-forward, force, new-ref or delete permit (C10-a); existing tags additionally need force (C10-b); ref writes go through the logging API only (C10-c); the reflog's old value is read inside the same SQL transaction (C10-d); merge writes refs only after the merge base was computed (C10-e, weak).",
+		NotDecided: "that IsAncestorOf answers correctly (C11); merge's fast-forward condition (control-dependent on SeekCommonAncestor); pull's new-branch detection; the remote side of push.",
+	}
 }
